@@ -16,6 +16,11 @@ Strata
          kind of result (data / MessageTooBig).  Which byte count makes a message "too big" is
          NOT prescribed (only: it may not depend on the cuts).
 
+  full   wires whose length up to and including the end-of-data line is exactly k*R, R-1+.., R+1+.. (R = the size
+         the reader asks the socket for, observed on the scripted socket, k = 1, 2), delivered as full-size reads:
+         a read that fills the buffer and ends with the end-of-data line must not be followed by another read.
+         With / without trailer, pre-buffering, with / without max_size; same oracles.
+
 The sender is executed through both of its emission paths (DataSender.send(io) + flush, the one
 the client uses, and iteration); the reader product is run once per DISTINCT wire of a message:
 the reader sees nothing of the sender but the wire, so re-running it for another part split that
@@ -24,7 +29,7 @@ produced the identical bytes would repeat identical executions.
 import random
 import itertools
 
-from vf.sock import ScriptSocket, WouldBlock, segmentations
+from vf.sock import ScriptSocket, WouldBlock, segmentations, cut
 from slimta.smtp.io import IO
 from slimta.smtp.datareader import DataReader
 from slimta.smtp.datasender import DataSender
@@ -53,7 +58,8 @@ RULE = ('case = one message x; every split of x into sender parts at line bounda
         'longest exhaustive length, {1,n/2,n-2..n+1} for random messages) x 2 trailers x the same segmentations (extra cut pairs around the byte at '
         'which the limit is crossed) x pre-buffering. x is enumerated exhaustively over {".",CR,LF,"a"} up to the '
         'tier bound, over token sequences {".","a",CRLF} longer than the bound, a designed dot+whitespace family, '
-        'then seeded 8-bit random. non-trivial & distinct = distinct x that has a dot-leading line, a bare CR/LF, '
+        'then seeded 8-bit random; 36 messages whose wire is k*R-1, k*R, k*R+1 bytes (R = observed read size, '
+        'k = 1, 2) fed as full-size reads. non-trivial & distinct = distinct x that has a dot-leading line, a bare CR/LF, '
         'no final CRLF or is empty')
 ASSUMPTIONS = ['ScriptSocket hands out exactly the scripted segments (recv(n) never returns more than n)',
                'sender parts are split only at line boundaries, as the property states',
@@ -62,7 +68,8 @@ ASSUMPTIONS = ['ScriptSocket hands out exactly the scripted segments (recv(n) ne
                'size stratum: a wire (message + end-of-data line) of n bytes does not exceed a limit >= n; '
                'below that the check does not say which messages are too big, only that the answer is the same '
                'for every segmentation']
-REQUIRED_HITS = ['reader-returned', 'leftover-compared', 'sender-send-path', 'size/leftover-compared-after-too-big',
+REQUIRED_HITS = ['reader-returned', 'leftover-compared', 'sender-send-path', 'full/read-of-exactly-read-size-ends-with-eod',
+                 'full/too-big-read-of-exactly-read-size-ends-with-eod', 'size/leftover-compared-after-too-big',
                  'size/leftover-compared-after-data', 'size/same-result-kind-judged']
 SHARDS = {'quick': 16, 'thorough': 16}
 BUDGET = {'quick': 70, 'thorough': 900}
@@ -113,6 +120,12 @@ def gen_cases(tier, seed, shard, nshards):
         if n % nshards == shard:
             yield {'x': x, 'kind': 'ws'}
         n += 1
+    for k in (1, 2):
+        for delta in (-1, 0, 1):
+            for variant in ('plain', 'dots', 'no-final-crlf', 'bare-lf', 'one-long-line', 'dot-last-line'):
+                if n % nshards == shard:
+                    yield {'x': b'', 'kind': 'full', 'k': k, 'delta': delta, 'variant': variant, 'rs': 77 + n}
+                n += 1
     for L in range(1, TOKBOUND[tier] + 1):
         for tup in itertools.product(TOKENS, repeat=L):
             x = b''.join(tup)
@@ -281,7 +294,111 @@ def size_stratum(x, parts, wire, case, rnd, R):
                 R.count('size/all-segmentations-' + next(iter(kinds)))
 
 
+class ProbeSocket(ScriptSocket):
+    """Remembers the size the code under test asks for."""
+    asked = None
+
+    def recv(self, n, *flags):
+        self.asked = n
+        return ScriptSocket.recv(self, n, *flags)
+
+
+def read_size():
+    ss = ProbeSocket([b'x'])
+    IO(ss, address=('h', 1)).raw_recv()
+    return ss.asked
+
+
+def full_message(target, variant):
+    """A message whose wire (message + end-of-data line) should be `target` bytes long."""
+    if variant == 'no-final-crlf':
+        body = target - 5               # the sender adds CRLF . CRLF
+        return (b'a' * 62 + b'\r\n') * ((body - 1) // 64) + b'b' * (body - 64 * ((body - 1) // 64))
+    body = target - 3
+    if variant == 'one-long-line':
+        return b'L' * (body - 2) + b'\r\n'
+    if variant == 'dots':               # every line is stuffed: 64 wire bytes per 63 message bytes
+        line, wl = b'.' + b'd' * 60 + b'\r\n', 64
+    elif variant == 'bare-lf':
+        line, wl = b'a' * 63 + b'\n', 64
+    else:
+        line, wl = b'a' * 62 + b'\r\n', 64
+    q, r = divmod(body, wl)
+    if r < 3:
+        q, r = q - 1, r + wl
+    last = (b'.' + b'z' * (r - 4) + b'\r\n') if variant == 'dot-last-line' else (b'z' * (r - 2) + b'\r\n')
+    return line * q + last
+
+
+def full_read_stratum(case, R):
+    rsz = read_size()
+    R.observe('full/read-size', rsz)
+    rnd = random.Random(case['rs'])
+    k, delta = case['k'], case['delta']
+    x = full_message(k * rsz + delta, case['variant'])
+    R.nontrivial(('full', k, delta, case['variant']))
+    R.eval()
+    wire = emit_send([x])
+    R.hit('sender-send-path')
+    n = len(wire)
+    if n != k * rsz + delta:
+        R.count('full/wire-length-not-as-planned')
+    for t in (b'', b'QUIT\r\n', b'.\r\nQUIT\r\n'):
+        data = wire + t
+        cutsets = [[], list(range(rsz, len(data), rsz)), [rsz - 1], [rsz + 1], [rsz, rsz + 1], [1], [n - 1], [n - 3],
+                   [n], [n - rsz] if n > rsz else [n - 2], [1] + list(range(rsz + 1, len(data), rsz))]
+        cutsets += [sorted(rnd.sample(range(1, len(data)), 3)) for _ in range(3)]
+        for cuts in cutsets:
+            segs = cut(data, sorted(set(c for c in cuts if 0 < c < len(data))))
+            for pre in (False, True):
+                for m in (None, n, n - 1, 100):
+                    R.eval()
+                    kind, out, left = read(segs, pre, m)
+                    # which reads does the socket hand out?  (a scripted segment longer than R comes in R-sized reads)
+                    ends, pos = [], 0
+                    for i, sg in enumerate(segs):
+                        if pre and i == 0:
+                            pos += len(sg)
+                            continue
+                        for off in range(0, len(sg), rsz):
+                            ln = min(rsz, len(sg) - off)
+                            ends.append((pos + off + ln, ln))
+                    full_eod = (n, rsz) in ends and t == b''
+                    why = None
+                    if kind == 'data':
+                        R.hit('reader-returned')
+                        R.hit('leftover-compared')
+                        if full_eod:
+                            R.hit('full/read-of-exactly-read-size-ends-with-eod')
+                        if out not in expected(x):
+                            why = 'content-differs'
+                        elif left != t:
+                            why = 'leftover-differs'
+                    elif kind == 'too-big':
+                        R.hit('size/leftover-compared-after-too-big')
+                        if full_eod:
+                            R.hit('full/too-big-read-of-exactly-read-size-ends-with-eod')
+                        if m is None or m >= n:
+                            why = 'refused-although-wire-within-limit'
+                        elif left != t:
+                            why = 'leftover-differs/after-too-big'
+                    else:
+                        why = kind
+                    if why:
+                        stem = ('size-limit/' if m is not None else '') + why
+                        R.violation(stem + ('/read-fills-buffer' if (n, rsz) in ends else ''),
+                                    '%s: wire of %d bytes (read size %d, k=%d, delta=%d, %s) trailer=%r max_size=%r'
+                                    % (why, n, rsz, k, delta, case['variant'], t, m),
+                                    {'variant': case['variant'], 'wire_length': n, 'read_size': rsz, 'trailer': t,
+                                     'max_size': m, 'segment_lengths': [len(sg) for sg in segs],
+                                     'prebuffered_first_segment': pre, 'result': kind,
+                                     'got_length': len(out) if isinstance(out, bytes) else out,
+                                     'leftover': left, 'a_read_of_exactly_read_size_ends_with_eod': (n, rsz) in ends})
+
+
 def run_case(case, R):
+    if case.get('kind') == 'full':
+        return full_read_stratum(case, R)
     x = case['x']
     rnd = random.Random(case.get('rs', 0))
     if is_nontrivial(x):
